@@ -224,6 +224,20 @@ let ctxinfo_t = function R [h; k] -> { ci_height = zt h; ci_keystones = keystone
 let t_authctx c = R [t_ctxinfo c.ac_ctx; tb c.ac_state_root]
 let authctx_t = function R [c; r] -> { ac_ctx = ctxinfo_t c; ac_state_root = bt r } | _ -> failwith "authctx"
 
+let t_endorsement e = R [tb e.en_id; tb e.en_endorsed; tb e.en_containing; tb e.en_bop]
+let endorsement_t = function
+  | R [i; e; c; b] -> { en_id = bt i; en_endorsed = bt e; en_containing = bt c; en_bop = bt b } | _ -> failwith "endorsement"
+let ids l = L (List.map tb l)
+(* PopState is a multimap keyed by id: compare in id order (stable); Blob::operator< compares from the LAST byte down *)
+let t_popstate l =
+  let key e = hex_of_bytes (List.rev e.en_id) in
+  L (List.map t_endorsement (List.stable_sort (fun a b -> compare (key a) (key b)) l))
+let t_sba a = R [ids a.sba_bop_ids; L (List.map tz a.sba_refs)]
+let t_sva a = R [ids a.sva_endorsed_by; ids a.sva_bop_ids; tz a.sva_ref_count; ids a.sva_vtb_ids; t_popstate a.sva_pop_state]
+let t_saa a = R [ids a.saa_endorsed_by; ids a.saa_atv_ids; ids a.saa_vtb_ids; ids a.saa_vbk_ids; t_popstate a.saa_pop_state]
+let t_stored th ta (h, (hd, (st, a))) = R [tz h; th hd; tz st; ta a]
+let no_read _ = failwith "enc not supported for stored types"
+
 (* ---- ops, generic in the codec ---- *)
 let nlen l = List.length l
 
@@ -259,6 +273,11 @@ let dispatch (op : string) (t : string) (arg : string) : string =
   | "btcblockraw" -> go c_btcblock_raw t_btcblock btcblock_t
   | "vbkblock" -> go c_vbkblock t_vbkblock vbkblock_t
   | "vbkblockraw" -> go c_vbkblock_raw t_vbkblock vbkblock_t
+  | "vbkendorsement" -> go c_vbk_endorsement t_endorsement endorsement_t
+  | "altendorsement" -> go c_alt_endorsement t_endorsement endorsement_t
+  | "storedbtc" -> go c_stored_btc (t_stored t_btcblock t_sba) no_read
+  | "storedvbk" -> go c_stored_vbk (t_stored t_vbkblock t_sva) no_read
+  | "storedalt" -> go c_stored_alt (t_stored t_altblock t_saa) no_read
   | "altblock" -> go c_altblock t_altblock altblock_t
   | "keystones" -> go c_keystones t_keystones keystones_t
   | "ctxinfo" -> go c_ctxinfo t_ctxinfo ctxinfo_t
